@@ -32,7 +32,7 @@ CLAIMED = {
     design='5/C06'),
  'C07': dict(
     technique='deterministic simulation (history dimension): seeded orders of decorate / define-name / call events over live synthetic modules; evaluated-annotation twin under the same sampler draw as oracle',
-    text='Seeded search over histories in which a callable annotated by strings (quoted or postponed; module, method, nested-class method, closure placement) is decorated before, between or after the definition of the names it refers to and called at each stage: unresolved names needed by a check raise a beartype forward-reference exception (never NameError), the same function object works after the name is defined, and every call with all names resolvable gives the verdict of a twin decorated with the evaluated annotation under the same draw. The hint-shape coverage is ordinary generation; the technique decides the order-of-events part. Evidence, not proof.',
+    text='Seeded search over histories in which a callable annotated by strings (quoted, partially quoted or postponed; module, method, nested-class method, closure and closure-class placement; plain function, generator, asynchronous generator or coroutine) is decorated before, between or after the definition of the names it refers to and called at each stage: unresolved names needed by a check raise a beartype forward-reference exception (never NameError), the same function object works after the name is defined, and every call with all names resolvable gives the verdict of a twin decorated with the evaluated annotation under the same draw. The hint-shape coverage is ordinary generation; the technique decides the order-of-events part. Evidence, not proof.',
     note='Trusted: the templates (only references Python\'s scoping makes resolvable), eval() of the annotation text for the twin.',
     design='5/C07'),
  'C08': dict(
@@ -57,7 +57,7 @@ CLAIMED = {
     design='5/C09'),
  'C10': dict(
     technique='deterministic simulation (weakest fit): sampler seam + stream/container stubs (one-shot and exploding streams, logging containers) as the fault surface',
-    text='The checked object is the I/O surface: one-shot iterators (plain and raising-if-advanced), generators, map/zip/enumerate/reversed objects, StringIO, defaultdicts and containers logging every method; after a check at any entry point and draw no consuming or mutating call was made, the stream still yields its first element, len(defaultdict) and contents are unchanged and the wrapped callable received the identical object. No schedule is involved; the simulator contributes the draw and the stubs. Evidence, not proof.',
+    text='The checked object is the I/O surface: one-shot iterators (plain and raising-if-advanced), generators, map/zip/enumerate/reversed objects, StringIO, defaultdicts and containers logging every method; after a check at any entry point and draw - also when the object sits inside a rejected object before the culprit, so that the explanation walks past it - no consuming or mutating call was made, the stream still yields its first element, len(defaultdict) and contents are unchanged and the wrapped callable received the identical object. No schedule is involved; the simulator contributes the draw and the stubs. Evidence, not proof.',
     note='Trusted: the stubs and their post-check inspection; validators (user callables) are out of scope here.',
     design='5/C10'),
  'C11': dict(
